@@ -132,4 +132,15 @@ def make_connector(loop, origin_factory, **kw):
                 origin.on_connect(tr)
             return proto
 
+    if "resolver" not in kw:
+        # a real resolver per connector leaks a DNS channel (file descriptors) in long runs
+        from aiohttp.abc import AbstractResolver
+
+        class _NoResolver(AbstractResolver):
+            async def resolve(self, host, port=0, family=0):
+                return [{"hostname": host, "host": "127.0.0.1", "port": port, "family": family, "proto": 0, "flags": 0}]
+
+            async def close(self):
+                pass
+        kw["resolver"] = _NoResolver()
     return MemConnector(**kw)
